@@ -226,14 +226,16 @@ pub fn knowledge_transfer(second: Option<&AsmLine>, iter: &mut Peek, accumulator
         // INC / DEC / a shift of memory: like a store, under any operand text (`a+1` and `a,X` may be one cell)
         ((!remove_second && !remove_both) && writes_mem(ins(second).mnemonic, ins(second).dasm_operand@) && !is_store(ins(second).mnemonic) ==>
             (r.0 is None || sw_hash(r.0->Some_0@)) && (r.1 is None || sw_hash(r.1->Some_0@)) && (r.2 is None || sw_hash(r.2->Some_0@))), //@ C02:xfer-memory-write-forgets-aliases
-        ((!remove_second && !remove_both) && r.3 == FlagsState::A ==> nz_is_a(ins(second).mnemonic, ins(second).dasm_operand@) || (flags == FlagsState::A && nz_kept(ins(second).mnemonic))), //@ C02:xfer-flags-a
+        ((!remove_second && !remove_both) && !r.4 && r.3 == FlagsState::A ==> nz_is_a(ins(second).mnemonic, ins(second).dasm_operand@) || (flags == FlagsState::A && nz_kept(ins(second).mnemonic))), //@ C02:xfer-flags-a
         // the same for X and Y: TXA keeps a belief about X true (N/Z of the value copied), TYA / PLA / ADC ... do not
-        ((!remove_second && !remove_both) && r.3 == FlagsState::X && r.1 is Some ==> nz_is_x(ins(second).mnemonic) || (flags == FlagsState::X && (nz_untouched(ins(second).mnemonic) || ins(second).mnemonic == AsmMnemonic::TXA))), //@ C02:xfer-flags-x
-        ((!remove_second && !remove_both) && r.3 == FlagsState::Y && r.2 is Some ==> nz_is_y(ins(second).mnemonic) || (flags == FlagsState::Y && (nz_untouched(ins(second).mnemonic) || ins(second).mnemonic == AsmMnemonic::TYA))), //@ C02:xfer-flags-y
+        ((!remove_second && !remove_both) && !r.4 && r.3 == FlagsState::X && r.1 is Some ==> nz_is_x(ins(second).mnemonic) || (flags == FlagsState::X && (nz_untouched(ins(second).mnemonic) || ins(second).mnemonic == AsmMnemonic::TXA))), //@ C02:xfer-flags-x
+        ((!remove_second && !remove_both) && !r.4 && r.3 == FlagsState::Y && r.2 is Some ==> nz_is_y(ins(second).mnemonic) || (flags == FlagsState::Y && (nz_untouched(ins(second).mnemonic) || ins(second).mnemonic == AsmMnemonic::TYA))), //@ C02:xfer-flags-y
 %(jmp_clause)s        // a load also sets N and Z: dropping a reload of X / Y is invisible only if the flags already describe that register
         ((!remove_second && !remove_both) && r.4 && ins(second).mnemonic == AsmMnemonic::LDX ==> flags == FlagsState::X), //@ C02:xfer-reload-x-keeps-flags
         ((!remove_second && !remove_both) && r.4 && ins(second).mnemonic == AsmMnemonic::LDY ==> flags == FlagsState::Y), //@ C02:xfer-reload-y-keeps-flags
         ((!remove_second && !remove_both) && r.4 ==> !ins(second).protected), //@ C18,C02:xfer-reload-unprotected
+        // a reload that is dropped does not execute: the belief about N/Z afterwards is one that was held before it (or none)
+        ((!remove_second && !remove_both) && r.4 ==> r.3 == flags || r.3 is Unknown), //@ C02:xfer-dropped-reload-sets-no-flag
         ((!remove_second && !remove_both) && r.4 ==> ((ins(second).mnemonic == AsmMnemonic::LDA && known(accumulator, ins(second).dasm_operand@)) || (ins(second).mnemonic == AsmMnemonic::LDX && known(x_register, ins(second).dasm_operand@)) || (ins(second).mnemonic == AsmMnemonic::LDY && known(y_register, ins(second).dasm_operand@)))), //@ C02:xfer-reload-redundant
 {
     let mut accumulator = accumulator;
